@@ -957,7 +957,19 @@ mod pipeline {
                 if idx != cnt - 1 {
                     runner = runner.stdout(Redirection::Pipe);
                 }
-                ret.push(runner.popen()?);
+                match runner.popen() {
+                    Ok(popen) => ret.push(popen),
+                    Err(err) => {
+                        // Dropping `ret` waits for the commands started so
+                        // far.  Close our end of the first command's stdin
+                        // beforehand, or a command reading its input to EOF
+                        // never exits and the wait never returns.
+                        if let Some(first) = ret.first_mut() {
+                            first.stdin.take();
+                        }
+                        return Err(err);
+                    }
+                }
             }
             Ok(ret)
         }
